@@ -153,6 +153,7 @@ def filesystem_events(rng, q):
         d = tempfile.mkdtemp(prefix="verif-fsreg-")
         try:
             expected = []
+            all_written = []
             chosen = rng.sample(pls, 6 if q else 12)
             exts = ["gb", "gbk", "gb", "gbk", "GB", "Gbk", "genbank", "txt", "fasta", "gb.bak"]
             for i, (_, key, seq, cls) in enumerate(chosen):
@@ -168,6 +169,7 @@ def filesystem_events(rng, q):
                 stem = rng.choice(["%s_%d" % (key, i), "plasmid-%d" % i, "%s.v%d" % (key, i), "lab.%d.final" % i])
                 with open(os.path.join(d, "%s.%s" % (stem, ext)), "w") as f:
                     SeqIO.write(rec, f, "genbank")
+                all_written.append((stem, ext))
                 if ext in ("gb", "gbk"):
                     expected.append(stem)
             os.mkdir(os.path.join(d, "subdir.gb"))            # a directory NAMED like a GenBank file
@@ -178,12 +180,19 @@ def filesystem_events(rng, q):
                 f.write("not a plasmid\n")
             with open(os.path.join(d, "table.csv"), "w") as f:
                 f.write("a,b\n")
-            reg = FilesystemRegistry(d, ytk.YTKPart)
+            # the extensions the registry looks for: the default pair, or a choice of the user (tuple, list, one only)
+            exts_arg = rng.choice([None, None, ("gbk",), ("genbank", "gb"), ["gb"], ("txt", "gbk", "gb"), ("GB",)])
+            if exts_arg is None:
+                reg = FilesystemRegistry(d, ytk.YTKPart)
+            else:
+                reg = FilesystemRegistry(d, ytk.YTKPart, extensions=exts_arg)
+                expected = [x for x in all_written if x[1] in exts_arg]
+                expected = [x[0] for x in expected]
             listing = []
             for name in sorted(os.listdir(d)):
                 stem, dot, ext = name.rpartition(".")
                 listing.append({"stem": stem if dot else name, "ext": ext if dot else "", "isdir": os.path.isdir(os.path.join(d, name))})
-            evs.append([observe(reg, "filesystem", {"expected": expected, "dir": listing}, absent=ABSENT + ["nested", "subdir", "README", "inner"])])
+            evs.append([observe(reg, "filesystem", {"expected": expected, "dir": listing, "exts": list(exts_arg or ("gb", "gbk"))}, absent=ABSENT + ["nested", "subdir", "README", "inner"])])
         finally:
             shutil.rmtree(d, ignore_errors=True)
     return evs
